@@ -319,7 +319,7 @@ class TemporalAdapter(H.Adapter):
 
     def construct(self, weighted, recs, ws, metas, node_meta, hg_meta):
         from hypergraphx import TemporalHypergraph
-        kw = {"weighted": weighted}
+        kw = {"weighted": True} if weighted else {}   # the documented default is unweighted
         if hg_meta is not None:
             kw["hypergraph_metadata"] = hg_meta
         if node_meta is not None:
